@@ -75,7 +75,7 @@ func placePaths(q *PlaceQueue, prefix string, leaf bool, out *[]string) {
 
 func genPlaceFilter(r *Rng) PlaceFilter {
 	f := PlaceFilter{}
-	if !r.Chance(45) {
+	if !r.Chance(33) {
 		return f
 	}
 	f.Type = placePick(r, []string{"", "allow", "deny", "deny", "Deny", "ALLOW", "DENY"})
@@ -268,8 +268,8 @@ func genPlaceCase(r *Rng) PlaceCase {
 	for tries := 0; ; tries++ {
 		c = PlaceCase{}
 		c.Root = genPlaceQueue(r, "root", 0, &seq, nil)
-		if r.Chance(70) {
-			c.Root.Submit = placePick(r, []string{"*", "*", "*", "alice,bob dev", " dev,ops", "alice"})
+		if r.Chance(85) {
+			c.Root.Submit = placePick(r, []string{"*", "*", "*", "*", "*", "alice,bob dev", " dev,ops", "alice"})
 		}
 		if r.Chance(3) {
 			c.Root.Children = append(c.Root.Children, PlaceQueue{Name: "oddacl", Submit: "alice  dev"})
@@ -299,6 +299,17 @@ func genPlaceCase(r *Rng) PlaceCase {
 	nrules := r.Intn(5)
 	for i := 0; i < nrules; i++ {
 		c.Rules = append(c.Rules, genPlaceRule(r, &c, 0))
+	}
+	if nrules > 0 && r.Chance(35) {
+		// a catch-all at the end of the chain: a fixed existing leaf or per-user queues under a parent
+		var leaves, parents []string
+		placePaths(&c.Root, "", true, &leaves)
+		placePaths(&c.Root, "", false, &parents)
+		if len(leaves) > 0 && r.Bool() {
+			c.Rules = append(c.Rules, PlaceRule{Name: "fixed", Value: placePick(r, leaves)})
+		} else {
+			c.Rules = append(c.Rules, PlaceRule{Name: "user", Create: true, Parent: &PlaceRule{Name: "fixed", Value: placePick(r, parents)}})
+		}
 	}
 	napps := 1 + r.Intn(6)
 	for i := 0; i < napps; i++ {
